@@ -16,12 +16,14 @@ Abstract values
   Raised         the path ends in ``raise``
 """
 import ast
+import re
 from fractions import Fraction as Fr
 
 from . import nf
 from .nf import Rat, Poly, C
 from .source import Unsupported, AnchorError, Module, ClassInfo, params, body_wo_doc
 from .fold import token_num, fold_num
+from .absstr import SegStr, Seg, Cut, parse_format, spec_width, to_segstr
 
 
 class ListV:
@@ -141,6 +143,13 @@ class Interp:
         self._table_cache = {}
         self.integrals = {}
         self.n_objects = 0
+        self.module_globals = {}      # (module, node id) -> shared mutable module-level container
+        self.sym_strings = {}         # placeholder python str -> (width, cls): symbolic text values
+        self.num_widths = {}          # repr(Rat) -> printed width of that number under %d / %.1f / str()
+        self.cuts = []                # (node, text) operations that cut through a symbolic field
+        self.hazards = []             # (node, text) substring tests whose outcome depends on user text
+        self.files = {}               # file name -> list of abstract lines
+        self.opaque_classes = {}      # class qual -> handler(interp, frame, args, kwargs)
         self.extrema = {}             # MAX{..}/MIN{..} atom -> list of argument values
         self.roots = {}               # root atom -> polynomial coefficients (highest power first)
         self.prefixes = None
@@ -272,6 +281,67 @@ class Interp:
         finally:
             self.depth -= 1
 
+    # ---- abstract strings ------------------------------------------------
+    def seg(self, v, spec=None):
+        """abstract string of a value that is being printed"""
+        if isinstance(v, SegStr):
+            return v
+        if isinstance(v, str):
+            if v in self.sym_strings:
+                w, cls = self.sym_strings[v]
+                return SegStr.field(v, w, cls)
+            return SegStr.lit(v)
+        if isinstance(v, Rat):
+            if v.is_const() and spec in (None, '', 'd') and v.const_value().denominator == 1:
+                return SegStr.lit(str(int(v.const_value())))
+            w = None
+            if spec:
+                try:
+                    w = spec_width(spec.lstrip('%'), self.num_widths.get(repr(v)))
+                except Unsupported:
+                    w = None
+            if w is None:
+                w = self.num_widths.get(repr(v))
+            if w is None:
+                raise Unsupported('printed width of %r is not known' % (v,))
+            return SegStr.field(v, w, 'num', spec)
+        if v is None:
+            return SegStr.lit('None')
+        if isinstance(v, bool):
+            return SegStr.lit(str(v))
+        raise Unsupported('cannot print %r' % (v,))
+
+    def plain(self, v):
+        """collapse an abstract string to a concrete / placeholder python str when possible"""
+        if isinstance(v, SegStr):
+            if v.is_literal():
+                return v.literal()
+            f = v.single_field()
+            if f is not None and isinstance(f.value, str):
+                return f.value
+        return v
+
+    def format(self, fmt, args, kwargs):
+        out = SegStr()
+        for kind, a, spec in parse_format(fmt):
+            if kind == 'lit':
+                out = out + a
+                continue
+            if a.isdigit():
+                if int(a) >= len(args):
+                    raise _RaisedExc(Raised('IndexError'))
+                v = args[int(a)]
+            else:
+                if a not in kwargs:
+                    raise _RaisedExc(Raised('KeyError'))
+                v = kwargs[a]
+            if '{' in spec:
+                for kk, aa, _ in parse_format(spec):
+                    if kk == 'field':
+                        spec = spec.replace('{%s}' % aa, str(kwargs.get(aa, '')))
+            out = out + self.seg(v, spec)
+        return self.plain(out)
+
     def call_method(self, obj, mname, args, kwargs, after=None):
         if mname in obj.opaque_methods:
             return obj.opaque_methods[mname](self, obj, args, kwargs)
@@ -324,8 +394,17 @@ class Interp:
             return Elem(self.binop(op, x, y))
         if isinstance(a, SumV) or isinstance(b, SumV):
             return self._sum_binop(op, a, b)
-        if isinstance(a, str) and isinstance(b, str) and op == '+':
-            return a + b
+        if op == '+' and (isinstance(a, (str, SegStr)) and isinstance(b, (str, SegStr))):
+            if isinstance(a, str) and isinstance(b, str) and a not in self.sym_strings \
+                    and b not in self.sym_strings:
+                return a + b
+            return self.plain(self.seg(a) + self.seg(b))
+        if op == '*' and isinstance(a, str) and isinstance(b, Rat) and b.is_const() \
+                and b.const_value().denominator == 1 and a not in self.sym_strings:
+            return a * max(0, int(b.const_value()))
+        if op == '*' and isinstance(b, str) and isinstance(a, Rat) and a.is_const() \
+                and a.const_value().denominator == 1 and b not in self.sym_strings:
+            return b * max(0, int(a.const_value()))
         a = self.num(a)
         b = self.num(b)
         if op == '+':
@@ -416,6 +495,36 @@ class Interp:
                 return res if op == 'is' else not res
             # two symbolic/structured values: identity is not decidable in general
             raise Unsupported('identity test on symbolic values')
+        if isinstance(a, SegStr) or isinstance(b, SegStr) or \
+                (isinstance(a, str) and a in self.sym_strings) or (isinstance(b, str) and b in self.sym_strings):
+            if op in ('==', '!='):
+                if a is None or b is None or isinstance(a, (Rat, Obj, ListV, DictV)) or \
+                        isinstance(b, (Rat, Obj, ListV, DictV)):
+                    return op == '!='
+                sa, sb = self.seg(a), self.seg(b)
+                if sa.is_literal() and sb.is_literal():
+                    res = sa.literal() == sb.literal()
+                elif len(sa) != len(sb):
+                    res = False
+                elif repr(sa) == repr(sb):
+                    res = True
+                else:
+                    # a literal against user text of the same width: outcome depends on the text
+                    lit, sym = (sa, sb) if sa.is_literal() else (sb, sa)
+                    blank = lit.is_literal() and (lit.literal() == '' or any(ch.isspace() for ch in lit.literal()))
+                    if lit.is_literal() and not blank and any(f.cls == 'text' for f in sym.fields()):
+                        self.hazards.append((node, 'comparison with %r depends on user-controlled text %r'
+                                             % (lit.literal(), sym)))
+                    res = False
+                return res if op == '==' else not res
+            if op in ('in', 'not in') and isinstance(a, str) and a not in self.sym_strings:
+                r = self.seg(b).contains(a)
+                if r is None:
+                    self.hazards.append((node, 'substring test %r in a line containing user-controlled text: %r'
+                                         % (a, b)))
+                    r = False
+                return r if op == 'in' else not r
+            raise Unsupported('comparison %s on abstract strings' % op, node)
         if op in ('==', '!=') and (isinstance(a, (DictV, Obj)) or isinstance(b, (DictV, Obj))):
             res = self.struct_eq(a, b)
             return res if op == '==' else not res
@@ -492,6 +601,8 @@ class Interp:
             return v.const_value() != 0
         if isinstance(v, Obj):
             return True
+        if isinstance(v, SegStr):
+            return len(v) > 0
         raise Unsupported('undecidable truth value', node)
 
 
@@ -555,6 +666,13 @@ class Frame:
             raise _Continue()
         if isinstance(st, ast.Try):
             self.exec_try(st)
+            return
+        if isinstance(st, ast.With):
+            for item in st.items:
+                v = self.ev(item.context_expr)
+                if item.optional_vars is not None:
+                    self.assign(item.optional_vars, v)
+            self.exec_block(st.body)
             return
         if isinstance(st, ast.Assert):
             return
@@ -661,6 +779,8 @@ class Frame:
             return list(it.d.keys())
         if isinstance(it, str):
             return list(it)
+        if isinstance(it, Obj) and '__lines__' in it.attrs:
+            return list(it.attrs['__lines__'].items)
         if it is None or isinstance(it, (bool, Rat)):
             raise _RaisedExc(Raised('TypeError', node))     # not iterable
         if isinstance(it, Obj) and it.ci is not None and self.I.repo.find_method(it.ci, '__iter__', missing_ok=True):
@@ -750,7 +870,13 @@ class Frame:
         if isinstance(n, ast.BinOp):
             if type(n.op) not in _OPS:
                 raise Unsupported('operator', n, self.module.relpath)
-            if isinstance(n.op, ast.Mod) :
+            if isinstance(n.op, ast.Mod):
+                left = self.ev(n.left)
+                right = self.ev(n.right)
+                if isinstance(left, str) and left not in I.sym_strings:
+                    m_ = re.fullmatch(r'%[-+ 0#]*\d*(?:\.\d+)?[dfeEgs]', left)
+                    if m_ and isinstance(right, (Rat, str, SegStr)):
+                        return I.plain(I.seg(right, left))
                 raise Unsupported('operator %', n, self.module.relpath)
             a = self.ev(n.left)
             b = self.ev(n.right)
@@ -873,6 +999,45 @@ class Frame:
 
     def subscript(self, n):
         base = self.ev(n.value)
+        if isinstance(base, SegStr) or (isinstance(base, str) and base in self.I.sym_strings):
+            sb = self.I.seg(base)
+
+            def ci(x):
+                if x is None:
+                    return None
+                v = self.ev(x)
+                if isinstance(v, Rat) and v.is_const() and v.const_value().denominator == 1:
+                    return int(v.const_value())
+                raise Unsupported('symbolic index into an abstract string', n, self.module.relpath)
+            try:
+                if isinstance(n.slice, ast.Slice):
+                    if n.slice.step is not None:
+                        raise Unsupported('stepped slice of an abstract string', n, self.module.relpath)
+                    return self.I.plain(sb.slice(ci(n.slice.lower), ci(n.slice.upper)))
+                i = ci(n.slice)
+                if i < 0:
+                    i += len(sb)
+                if not 0 <= i < len(sb):
+                    raise _RaisedExc(Raised('IndexError', n))
+                return self.I.plain(sb.char_at(i))
+            except Cut as e:
+                self.I.cuts.append((n, str(e)))
+                # the characters of a field are not known: the result is an opaque piece of that field
+                return SegStr.field('piece-of:%r' % (e.seg.value,), 1, e.seg.cls)
+        if isinstance(base, str):
+            def cj(x):
+                if x is None:
+                    return None
+                v = self.ev(x)
+                if isinstance(v, Rat) and v.is_const() and v.const_value().denominator == 1:
+                    return int(v.const_value())
+                raise Unsupported('symbolic index into a string', n, self.module.relpath)
+            if isinstance(n.slice, ast.Slice):
+                return base[cj(n.slice.lower):cj(n.slice.upper):cj(n.slice.step)]
+            try:
+                return base[cj(n.slice)]
+            except IndexError:
+                raise _RaisedExc(Raised('IndexError', n))
         if isinstance(n.slice, ast.Slice):
             if isinstance(base, ListV):
                 lo = self.ev(n.slice.lower) if n.slice.lower else None
@@ -944,7 +1109,7 @@ class Frame:
             return self.obj_attr(base, n.attr, n)
         if isinstance(base, ListV) and n.attr == 'T':
             return _transpose(base)
-        if isinstance(base, (ListV, Elem, Rat, SumV, DictV, str)):
+        if isinstance(base, (ListV, Elem, Rat, SumV, DictV, str, SegStr)):
             return BoundNative(base, n.attr)
         if isinstance(base, Module):
             r = I.repo.lookup(base, n.attr)
@@ -1017,6 +1182,13 @@ class Frame:
             return FuncRef(r[1].module, r[2], None, r[1])
         if isinstance(r, tuple) and r[0] == 'value':
             m, node = r[1], r[2]
+            if isinstance(node, (ast.Dict, ast.List)) and (
+                    isinstance(node, ast.List) or len(node.keys) <= 3):
+                # small module-level container: mutable global state shared by every call in this run
+                key = (m.name, id(node))
+                if key not in self.I.module_globals:
+                    self.I.module_globals[key] = Frame(self.I, m, {}, None, None).ev(node)
+                return self.I.module_globals[key]
             if isinstance(node, ast.Dict):
                 return TableRef(m, node)
             return Frame(self.I, m, {}, None, None).ev(node)
@@ -1056,6 +1228,8 @@ class Frame:
                 al = self.module.aliases.get(v.id)
                 if al and al[0] == 'module':
                     return al[1] + '.' + '.'.join(reversed(chain))
+                if al and al[0] == 'object' and al[1] not in self.I.repo.modules:
+                    return al[1] + '.' + al[2] + '.' + '.'.join(reversed(chain))
         if isinstance(f, ast.Name) and f.id not in self.env:
             al = self.module.aliases.get(f.id)
             if al and al[0] == 'object':
@@ -1102,6 +1276,8 @@ class Frame:
             return I.call_function(fv.module, fv.fn, args, kwargs,
                                    self_obj=None if is_static else fv.self_obj,
                                    owner=fv.owner, name=qual)
+        if isinstance(fv, ClassInfo) and fv.qual in I.opaque_classes:
+            return I.opaque_classes[fv.qual](I, self, args, kwargs)
         if isinstance(fv, ClassInfo):
             I.n_objects += 1
             o = Obj('%s#%d' % (fv.name, I.n_objects), fv, closed=True)
@@ -1226,11 +1402,11 @@ def _load(t):
     return t2
 
 
-_OPS = {ast.Add: '+', ast.Sub: '-', ast.Mult: '*', ast.Div: '/', ast.Pow: '**'}
+_OPS = {ast.Add: '+', ast.Sub: '-', ast.Mult: '*', ast.Div: '/', ast.Pow: '**', ast.Mod: '%'}
 _CMP = {ast.Eq: '==', ast.NotEq: '!=', ast.Lt: '<', ast.LtE: '<=', ast.Gt: '>', ast.GtE: '>=',
         ast.Is: 'is', ast.IsNot: 'is not', ast.In: 'in', ast.NotIn: 'not in'}
 
-PY_BUILTINS = {'sorted', 'set', 'getattr', 'hasattr', 'float', 'int', 'len', 'min', 'max', 'enumerate', 'zip', 'range', 'type',
+PY_BUILTINS = {'iter', 'open', 'round', 'sorted', 'set', 'getattr', 'hasattr', 'float', 'int', 'len', 'min', 'max', 'enumerate', 'zip', 'range', 'type',
                'isinstance', 'all', 'any', 'list', 'tuple', 'abs', 'sum', 'str', 'print',
                'sorted', 'dict', 'bool'}
 
@@ -1242,6 +1418,45 @@ def _as_int(v, n=None):
 
 
 def builtin_call(I, fr, name, args, kwargs, n):
+    if name in ('float', 'int') and args and (isinstance(args[0], SegStr) or
+                                               (isinstance(args[0], str) and args[0] in I.sym_strings)):
+        sv = I.seg(args[0]).strip()
+        f = sv.single_field()
+        if f is not None and f.cls == 'num' and isinstance(f.value, Rat):
+            return f.value
+        if sv.is_literal():
+            try:
+                return C(token_num(sv.literal()).v)
+            except Unsupported:
+                raise _RaisedExc(Raised('ValueError', n))
+        if f is None and sv.fields():
+            I.cuts.append((n, '%s() of %r: the text is not exactly one number' % (name, sv)))
+        raise _RaisedExc(Raised('ValueError', n))
+    if name in ('float', 'int') and args and isinstance(args[0], str):
+        try:
+            return C(token_num(args[0].strip()).v)
+        except Unsupported:
+            raise _RaisedExc(Raised('ValueError', n))
+    if name == 'iter':
+        return args[0]
+    if name == 'open':
+        fname = args[0] if args else kwargs.get('file')
+        mode = args[1] if len(args) > 1 else kwargs.get('mode', 'r')
+        fo = Obj('file:%s' % (fname,), closed=True)
+        fo.attrs['__lines__'] = ListV(list(I.files.get(fname, []))) if 'r' in mode else ListV([])
+        fo.attrs['__name__'] = fname
+        fo.attrs['__mode__'] = mode
+
+        def write(I_, o, a, k, fname=fname):
+            I_.files.setdefault(fname, [])
+            txt = I_.seg(a[0])
+            I_.files[fname] = list(I_.files[fname]) + txt.splitlines()
+            return None
+        fo.opaque_methods['write'] = write
+        fo.opaque_methods['close'] = lambda I_, o, a, k: None
+        if 'w' in mode:
+            I.files[fname] = []
+        return fo
     if name in ('float', 'int'):
         v = args[0]
         while isinstance(v, ListV) and len(v) == 1:
@@ -1279,6 +1494,8 @@ def builtin_call(I, fr, name, args, kwargs, n):
                 return NativeRef(full)
             raise Unsupported('getattr on external module: %s' % full, n)
         raise Unsupported('getattr on %r' % (o,), n)
+    if name == 'len' and isinstance(args[0], (SegStr, str)):
+        return C(len(I.seg(args[0])))
     if name == 'len':
         v = args[0]
         if isinstance(v, ListV):
@@ -1380,8 +1597,10 @@ def builtin_call(I, fr, name, args, kwargs, n):
     if name == 'str':
         if args and isinstance(args[0], ClassInfo):
             return "<class '%s'>" % args[0].qual
-        if args and isinstance(args[0], str):
+        if args and isinstance(args[0], (str, SegStr)):
             return args[0]
+        if args and isinstance(args[0], Rat):
+            return I.plain(I.seg(args[0]))
         if args and isinstance(args[0], Obj) and args[0].ci is not None:
             got = I.repo.find_method(args[0].ci, '__str__', missing_ok=True)
             if got:
@@ -1474,6 +1693,10 @@ def bound_native(I, fr, bn, args, kwargs, n):
                 b.d.update(args[0].d)
             b.d.update(kwargs)
             return None
+    if isinstance(b, (str, SegStr)) and (isinstance(b, SegStr) or b in I.sym_strings or name in ('join', 'format')):
+        r = abstract_str_method(I, fr, b, name, args, kwargs, n)
+        if r is not NotImplemented:
+            return r
     if isinstance(b, str) and name == 'format':
         if all(isinstance(a, str) for a in args) and not kwargs:
             try:
@@ -1481,8 +1704,12 @@ def bound_native(I, fr, bn, args, kwargs, n):
             except (IndexError, KeyError, ValueError):
                 pass
         return '<formatted>'
-    if isinstance(b, str) and name in ('lower', 'upper', 'strip'):
-        return getattr(b, name)()
+    if isinstance(b, str) and b not in I.sym_strings and name in (
+            'lower', 'upper', 'strip', 'lstrip', 'rstrip', 'isdigit', 'isalpha', 'isspace', 'isalnum', 'title',
+            'capitalize', 'count', 'find', 'zfill') and all(isinstance(a, (str, Rat)) for a in args):
+        pa = [a if isinstance(a, str) else _as_int(a, n) for a in args]
+        r = getattr(b, name)(*pa)
+        return C(r) if isinstance(r, int) and not isinstance(r, bool) else r
     if isinstance(b, str) and name == 'split' and all(isinstance(a, str) for a in args):
         return ListV(list(b.split(*args)))
     if isinstance(b, str) and name == 'replace' and len(args) == 2 and all(isinstance(a, str) for a in args):
@@ -1494,6 +1721,71 @@ def bound_native(I, fr, bn, args, kwargs, n):
     if real is not None and name not in real:
         raise _RaisedExc(Raised('AttributeError', n))     # e.g. dict.to_dict(), list.tolist()
     raise Unsupported('method %s on %r' % (name, b), n)
+
+
+def abstract_str_method(I, fr, b, name, args, kwargs, n):
+    sym = isinstance(b, SegStr) or b in I.sym_strings
+    if name == 'format':
+        plain_args = all(isinstance(a, str) and a not in I.sym_strings for a in args) and \
+            all(isinstance(a, str) and a not in I.sym_strings for a in kwargs.values())
+        if not sym and plain_args:
+            return NotImplemented
+        if sym:
+            raise Unsupported('format() with a symbolic template', n)
+        try:
+            return I.format(b, args, kwargs)
+        except Unsupported:
+            return '<formatted>'
+    if name == 'join':
+        if sym:
+            raise Unsupported('join() with a symbolic separator', n)
+        seq = args[0]
+        items = seq.items if isinstance(seq, ListV) else None
+        if items is None:
+            raise Unsupported('join() of %r' % (seq,), n)
+        if all(isinstance(x, str) and x not in I.sym_strings for x in items):
+            return b.join(items)
+        out = SegStr()
+        for i, x in enumerate(items):
+            if i:
+                out = out + b
+            out = out + I.seg(x)
+        return I.plain(out)
+    if not sym:
+        return NotImplemented
+    sb = I.seg(b)
+    if name == 'find':
+        start = _as_int(args[1], n) if len(args) > 1 else 0
+        if not isinstance(args[0], str):
+            raise Unsupported('find() of a symbolic needle', n)
+        return C(sb.find(args[0], start))
+    if name in ('strip', 'lstrip', 'rstrip') and (not args or args == ['\n'] or args == [' ']):
+        return I.plain(sb.strip(name, args[0] if args else None))
+    if name in ('isdigit', 'isalpha'):
+        if sb.is_literal():
+            return getattr(sb.literal(), name)()
+        kinds = {f.cls for f in sb.fields()}
+        if sb.fields() and len(sb.fields()) == len(sb.segs):
+            if kinds == {'alpha'}:
+                return name == 'isalpha'
+            if kinds == {'num'} and all(f.spec in ('%d', 'd') for f in sb.fields()):
+                return name == 'isdigit'
+        I.hazards.append((n, '%s() of user-controlled text %r' % (name, sb)))
+        return False
+    if name == 'replace' and len(args) == 2 and all(isinstance(a, str) for a in args):
+        return I.plain(sb.replace(args[0], args[1]))
+    if name == 'split' and len(args) == 1 and isinstance(args[0], str):
+        return ListV([I.plain(x) for x in sb.split(args[0])])
+    if name == 'splitlines':
+        return ListV([I.plain(x) for x in sb.splitlines()])
+    if name in ('startswith', 'endswith') and args and isinstance(args[0], str):
+        k = len(args[0])
+        try:
+            piece = sb.slice(0, k) if name == 'startswith' else sb.slice(len(sb) - k, len(sb))
+        except Cut:
+            return False
+        return piece.is_literal() and piece.literal() == args[0]
+    raise Unsupported('method %s on an abstract string' % name, n)
 
 
 # ----------------------------------------------------------------------
